@@ -65,7 +65,7 @@ class Ctx:
         self.analysed[name] = self.analysed.get(name, 0) + n
 
 
-def reuse(ctx: "Ctx", run_fn, keep, rename: str, note: str):
+def reuse(ctx: "Ctx", run_fn, keep, rename: str, note: str, only=None):
     """Run another property's rule function on the same repository and re-emit
     the findings whose rule name starts with one of *keep* under *rename* (the
     same structural fact is a necessary condition of both properties)."""
@@ -73,7 +73,7 @@ def reuse(ctx: "Ctx", run_fn, keep, rename: str, note: str):
     run_fn(sub)
     n = 0
     for f in sub.findings:
-        if any(f.rule.startswith(k) for k in keep):
+        if any(f.rule.startswith(k) for k in keep) and (only is None or only(f)):
             n += 1
             new_rule = f"{rename}.{f.rule.split('.', 1)[1]}"
             ctx._add(f.verdict, new_rule, f.construct, f.loc, f"{f.detail} [{note}]", disc=f.key.split(" | ", 2)[2] if f.key.count(" | ") >= 2 else "", trivial=f.trivial)
